@@ -110,7 +110,7 @@ def run_property(prop, tier='quick', seed=0, jobs=None, limit=None, verbose=Fals
     opts = dict(getattr(mod, 'OPTS', {}))
     opts.setdefault('canary_every', 10)
     opts.setdefault('fidelity_every', 25 if tier == 'quick' else 10)
-    opts.setdefault('cvc5_every', 150 if tier == 'quick' else 40)
+    opts.setdefault('cvc5_every', 400 if tier == 'quick' else 150)
     opts['tier'] = tier
     descs = list(mod.cases(tier, seed))
     for i, d in enumerate(descs):
@@ -129,13 +129,36 @@ def run_property(prop, tier='quick', seed=0, jobs=None, limit=None, verbose=Fals
     else:
         from . import core
         ctx = mp.get_context('spawn')
-        with ProcessPoolExecutor(max_workers=jobs, mp_context=ctx) as ex:
-            futs = [ex.submit(core.worker_chunk, modname, ch, opts) for ch in chunks]
-            for f in as_completed(futs):
+        # overall wall-clock guard: a worker stuck in native code (solver, gmp) must not hang the check for ever
+        budget = float(os.environ.get('KV_RUN_BUDGET_S', '0') or 0) or (1500 if tier == 'quick' else 4 * 3600)
+        ex = ProcessPoolExecutor(max_workers=jobs, mp_context=ctx)
+        futs = {ex.submit(core.worker_chunk, modname, ch, opts): ch for ch in chunks}
+        try:
+            for f in as_completed(futs, timeout=budget):
                 out, rec = f.result()
                 results.extend(out)
                 for k, v in rec['funcs'].items():
                     rec_funcs[k] = max(rec_funcs.get(k, 0), v)
+            ex.shutdown()
+        except Exception as e:  # concurrent.futures.TimeoutError or a broken pool
+            done = {id(f) for f in futs if f.done() and not f.cancelled() and f.exception() is None}
+            for f, ch in futs.items():
+                if id(f) in done:
+                    if not any(r['desc'].get('_idx') == ch[0].get('_idx') for r in results):
+                        out, rec = f.result()
+                        results.extend(out)
+                    continue
+                for d in ch:
+                    r = core._new_result(d)
+                    r['status'] = 'inconclusive'
+                    r['notes'].append(f'not finished within the run budget of {budget:.0f}s ({type(e).__name__}); workers killed')
+                    results.append(r)
+            for p in list(getattr(ex, '_processes', {}).values()):
+                try:
+                    p.kill()
+                except Exception:
+                    pass
+            ex.shutdown(wait=False, cancel_futures=True)
     # extra, non-pooled obligations (bit-vector lemmas, CrossHair ...)
     extra = []
     if hasattr(mod, 'extra'):
